@@ -269,7 +269,7 @@ func checkProb(c probCase) *vk.Failure {
 }
 
 func TestProb(t *testing.T) {
-	vk.Run(t, "prob", vk.Opts{Quick: 15000, Thorough: 500000, NoCrumb: true}, func(t *rapid.T) probCase {
+	vk.Run(t, "prob", vk.Opts{Quick: 30000, Thorough: 500000, NoCrumb: true}, func(t *rapid.T) probCase {
 		return probCase{
 			N:     vk.Dim(t, "n", 1, 100, 2, 8, 32),
 			PKind: rapid.IntRange(0, 2).Draw(t, "pkind"),
